@@ -115,6 +115,9 @@ def build_batch(cfg):
     return sp, xyz
 
 
+POOL.setdefault("oh", ([8, 1], [[0.0, 0.0, 0.0], [0.97, 0.0, 0.0]]))
+POOL.setdefault("nh4", ([7, 1, 1, 1, 1], [[0.0, 0.0, 0.0], [0.59, 0.59, 0.59], [-0.59, -0.59, 0.59], [-0.59, 0.59, -0.59], [0.59, -0.59, -0.59]]))
+POOL.setdefault("ch3", ([6, 1, 1, 1], [[0.0, 0.0, 0.0], [1.079, 0.0, 0.0], [-0.5395, 0.9344, 0.0], [-0.5395, -0.9344, 0.0]]))
 ENGINES = ("basic", "langevin", "xl", "xl_damp", "ksa", "exc_basic", "exc_xl", "xl_esmd", "sh")
 STUB_OK = ("basic", "langevin", "xl", "xl_damp", "ksa", "sh_model", "exc_basic", "exc_xl", "xl_esmd")
 EXC_ENGINES = ("exc_basic", "exc_xl", "xl_esmd")
@@ -175,7 +178,12 @@ def make_md(cfg, prefix, params=None, md=None):
     coords = torch.as_tensor(xyz_np, dtype=torch.float64)
     if params is None:
         params = seqm_parameters(cfg)  # the SAME dict object goes to Molecule and to the driver
-    mol = Molecule(Constants(), params, coords, species)
+    mkw = {}
+    if cfg.get("charges") is not None:
+        mkw["charges"] = torch.as_tensor(cfg["charges"])
+    if cfg.get("mult") is not None:
+        mkw["mult"] = torch.as_tensor(cfg["mult"])
+    mol = Molecule(Constants(), params, coords, species, **mkw)
     out = output_dict(cfg, prefix)
     eng = cfg["engine"]
     common = dict(seqm_parameters=params, timestep=cfg["dt"], Temp=cfg["temp"], output=out)
